@@ -53,6 +53,15 @@ def gen(ctx):
                 else:   # the reply arrives together with further bytes
                     labels = g + ["S*", "N:" + hexs("player"), "D0", "S*", "D0"] + L.flush(0)
                 items.append((L.Sched(cspec=f"{api}:{hexs(pw)}", conf=cf, labels=labels, note=f"pw={pw[:20]!r} {verdict}"), {"pw": pw, "verdict": verdict}))
+    # the verdict arrives in two parts, cut after every byte of its line (and byte by byte): the outcome is the verdict's
+    for api in ("p", "o"):
+        pw = b"secret"
+        for verdict, line in (("wrong", b"ACK [3@0] {password} incorrect password\n"), ("ok", b"OK\n")):
+            cf = L.conf(pw=(b"other" if verdict == "wrong" else pw))
+            for cutl in [[f"D{k}"] for k in range(1, len(line))] + [["D1"] * (len(line) + 2)]:
+                tail = ["t200", "S*", "D0"] if verdict == "wrong" else ["S*", "i1:" + L.spec("echo", "a")] + L.flush(1)
+                items.append((L.Sched(cspec=f"{api}:{hexs(pw)}", conf=cf, labels=["D0", "S*"] + cutl + ["D0"] + tail, note=f"verdict {verdict} cut {cutl[0]}x{len(cutl)}"),
+                              {"pw": pw, "verdict": verdict}))
     for api in ("p~", "o~"):
         for g in greet:
             items.append((L.Sched(cspec=api, labels=g + ["S*", "i1:" + L.spec("echo", "a")] + L.flush(1), note="no password"), {"pw": None, "verdict": "ok"}))
